@@ -179,6 +179,64 @@ fn hexhead(b: &[u8]) -> String {
     s
 }
 
+/// ISN produced by an interface created with `random_seed = seed` (measured by really
+/// creating the interface, connecting a socket and reading the SYN off the device).
+fn isn_for_seed(seed: u64) -> Option<u32> {
+    let a0 = IpAddress::Ipv4(Ipv4Address::new(10, 0, 0, 1));
+    let a1 = IpAddress::Ipv4(Ipv4Address::new(10, 0, 0, 2));
+    let mut h = Host::new(Medium::Ip, 1500, HardwareAddress::Ip, seed, &[IpCidr::new(a0, 24)], 0);
+    let s = tcp::Socket::new(tcp::SocketBuffer::new(vec![0u8; 64]), tcp::SocketBuffer::new(vec![0u8; 64]));
+    let hd = h.sockets.add(s);
+    {
+        let cx = h.iface.context();
+        h.sockets.get_mut::<tcp::Socket>(hd).connect(cx, IpEndpoint::new(a1, 80), 49152).ok()?;
+    }
+    let out = h.poll(0);
+    let f = out.tx.first()?;
+    let info = ip::parse(&f.data, false).ok()?;
+    let seg = itcp::parse(&info.src, &info.dst, &f.data[info.payload_off..info.payload_off + info.payload_len]).ok()?;
+    Some(seg.seq)
+}
+
+/// Distances (bytes until the sequence number wraps to 0 / crosses 2^31) for one seed, measured.
+pub fn wrap_distance(seed: u64) -> Option<(u32, bool)> {
+    let isn = isn_for_seed(seed)?;
+    let first = isn.wrapping_add(1);
+    let d32 = 0u32.wrapping_sub(first);
+    let d31 = 0x8000_0000u32.wrapping_sub(first);
+    if d32 <= d31 { Some((d32, true)) } else { Some((d31, false)) }
+}
+
+/// Scan `count` seeds starting at `from` and return those whose ISN lies less than `max_dist`
+/// before a boundary (used by `vmon gen-wrap-seeds` to regenerate sim/wrap_seeds.rs).
+pub fn scan_wrap_seeds(from: u64, count: u64, max_dist: u32) -> Vec<(u64, u32, bool)> {
+    let threads = std::thread::available_parallelism().map(|n| n.get()).unwrap_or(4) as u64;
+    let per = count / threads + 1;
+    let mut all = Vec::new();
+    std::thread::scope(|sc| {
+        let mut hs = Vec::new();
+        for t in 0..threads {
+            hs.push(sc.spawn(move || {
+                let mut v = Vec::new();
+                for k in 0..per {
+                    let seed = from + t * per + k;
+                    if let Some((d, is32)) = wrap_distance(seed) {
+                        if d < max_dist {
+                            v.push((seed, d, is32));
+                        }
+                    }
+                }
+                v
+            }));
+        }
+        for h in hs {
+            all.extend(h.join().unwrap_or_default());
+        }
+    });
+    all.sort();
+    all
+}
+
 fn tags(case_tag: u64) -> [u64; 2] {
     [case_tag ^ 0x1111_1111, case_tag ^ 0x2222_2222_2222]
 }
@@ -244,6 +302,31 @@ pub fn random_cfg(rng: &mut Rng, thorough: bool) -> SimCfg {
     let lim1 = (ep[0].rx_buf as u64).saturating_mul(300).max(2000);
     ep[0].total = ep[0].total.min(lim0);
     ep[1].total = ep[1].total.min(lim1);
+    // ---- initial sequence numbers shortly before 2^31 / 2^32, so that the transfer crosses them.
+    // The committed table (sim/wrap_seeds.rs) lists seeds whose ISN is close to a boundary; every
+    // entry is re-measured on the tree under test before it is used.
+    if rng.chance(1, 3) {
+        let table = super::wrap_seeds::WRAP_SEEDS;
+        for i in 0..2 {
+            if table.is_empty() || !rng.chance(2, 3) {
+                continue;
+            }
+            let lim = ((ep[i].tx_buf.min(ep[1 - i].rx_buf)) as u64).saturating_mul(300).max(2000);
+            let cands: Vec<&(u64, u32)> = table.iter().filter(|(_, d)| (*d as u64) + 64 <= lim).collect();
+            if cands.is_empty() {
+                continue;
+            }
+            let (seed, _) = **rng.pick(&cands);
+            let Some((dist, _)) = wrap_distance(seed) else { continue };
+            if dist as u64 + 64 > lim {
+                continue; // table stale for this tree: skip, the evidence counters will show it
+            }
+            if ep[i].total <= dist as u64 + 64 {
+                ep[i].total = (dist as u64 + 64 + rng.range(0, 2000)).min(lim.max(dist as u64 + 64));
+            }
+            ep[i].seed = seed;
+        }
+    }
     let hostile_until = match rng.below(6) {
         0 => 0,
         1 => rng.range(1_000, 200_000) as Micros,
